@@ -13,7 +13,8 @@
    database left behind; [fresh d h] the restarted node.
    The model follows /repo after the repairs dee6410 (block written in one batch),
    2b21c7f (head switch in one batch), 3eba51b (side chain checks the signature),
-   599b875 (verifyAllSideChainBlocks stores each fork block once it is verified). *)
+   599b875 (verifyAllSideChainBlocks stores each fork block once it is verified),
+   0702a5f (a block already canonical at or below the head does not become the head again). *)
 From VF.C11 Require Import Model ProofsA ProofsB ProofsC ProofsD ProofsE ProofsF ProofsG ProofsH ProofsI ProofsJ ProofsK.
 Local Open Scope N_scope.
 
@@ -183,7 +184,7 @@ Example C11_nonvacuous_linear_batch :
 Proof. vm_compute. repeat split; reflexivity. Qed.
 Print Assumptions C11_nonvacuous_linear_batch.
 
-(* the witnesses of the three repaired defects, now regression examples of the model
+(* the witnesses of the four repaired defects, now regression examples of the model
    (the same inputs run against the implementation from corpus/C11 on every check) *)
 Definition w2_tree : tree :=
   [mkB 1 0 0 1 [] 0 0; mkB 2 1 1 1 [] 0 0; mkB 3 2 2 1 [] 0 0; mkB 4 3 3 1 [] 0 0;
@@ -193,6 +194,9 @@ Definition w3_tree : tree :=
 Definition w4_tree : tree :=
   [mkB 1 0 0 1 [] 0 0; mkB 2 1 1 2 [1] 0 0; mkB 3 2 2 3 [2] 0 0;
    mkB 4 1 1 2 [1] 0 0; mkB 5 4 2 2 [] 1 0; mkB 6 5 3 2 [] 0 0].
+Definition w5_tree : tree :=
+  [mkB 1 0 0 1 [] 0 0; mkB 2 1 1 2 [1;2] 0 0; mkB 3 2 2 2 [] 0 0;
+   mkB 4 1 1 3 [1] 0 0; mkB 5 4 2 2 [2] 0 0; mkB 6 5 3 2 [] 0 0; mkB 10 6 4 2 [] 0 0].
 Definition reoffer (t : tree) (s0 : st) (batch : list N) (further : list N) (k : nat) : N * N :=
   match recover t (disk_of (crash_run t 6 s0 batch k)) with
   | Some (d, h) =>
@@ -209,6 +213,12 @@ Example C11_regression_witnesses :
    map (fun k => fst (reoffer w3_tree s0 [2;3] [] k)) (seq 0 9) = [0; 0; 0; 0; 0; 0; 0; 0; 0]) /\
   (* bad-signature block 5 offered inside a fork: rejected, never canonical *)
   (let s := run w4_tree 6 (init_st ex_g) [[2;3]; [4;5]; [6]] in
-   cur s = 3 /\ d_canon (disk_of s) = [(2, 3); (1, 2); (0, 1)]).
+   cur s = 3 /\ d_canon (disk_of s) = [(2, 3); (1, 2); (0, 1)]) /\
+  (* block 4 is canonical without its own state (block 6 was imported directly on 5,
+     whose root is block 2's); offered again it only gets state and receipts, the head
+     stays 6 - crash-free and after every crash point - and block 10 on 6 is adopted *)
+  (let s0 := run w5_tree 6 (init_st ex_g) [[2;3]; [4;5]; [6]] in
+   cur s0 = 6 /\ cur (fst (InsertChain w5_tree 6 s0 (blocks_of w5_tree [4]))) = 6 /\
+   map (reoffer w5_tree s0 [4] [10]) (seq 0 5) = [(0, 10); (0, 10); (0, 10); (0, 10); (0, 10)]).
 Proof. vm_compute. repeat split; reflexivity. Qed.
 Print Assumptions C11_regression_witnesses.
